@@ -208,7 +208,7 @@ def _tokens(parts, cmds):
         if t.startswith("PANIC") or t == "FUEL":
             panic = t
             break
-        v, _, e = t.rpartition("/")
+        v, _, e = t.partition("/")      # values never contain "/", error texts may (hprose/io: ...)
         if v.startswith("t:"):
             v = time_token(v)
         if i < len(cmds) and cmds[i].split(":")[0] in STRINGY and v == "x:nil":
